@@ -36,14 +36,14 @@ type PropSpec struct {
 }
 
 type KnownFinding struct {
-	Property    string `json:"property"`
-	ID          string `json:"id"`
-	Status      string `json:"status"` // open | fixed
-	Harness     string `json:"harness,omitempty"`
-	What        string `json:"what"`
-	Scope       string `json:"scope,omitempty"`
-	Commit      string `json:"commit,omitempty"`
-	Line        string `json:"line,omitempty"`
+	Property string `json:"property"`
+	ID       string `json:"id"`
+	Status   string `json:"status"` // open | fixed
+	Harness  string `json:"harness,omitempty"`
+	What     string `json:"what"`
+	Scope    string `json:"scope,omitempty"`
+	Commit   string `json:"commit,omitempty"`
+	Line     string `json:"line,omitempty"`
 }
 
 func loadKnownFindings() []KnownFinding {
